@@ -42,6 +42,8 @@ FAMILIES = {
     "ScipyGamma": ("ScipyGamma", ["a", "loc", "scale"], {"a": 2.5, "loc": 0.0, "scale": 1.2}, {"loc": 0.0}),
 }
 FAMILY_NAMES = list(FAMILIES)
+# a carrier for full pipelines whose parameters are *all* fixed (nothing left to estimate)
+FAMILIES["ScipyGammaAllFixed"] = ("ScipyGamma", ["a", "loc", "scale"], {"a": 2.5, "loc": 0.0, "scale": 1.2}, {"a": 2.5, "loc": 0.0, "scale": 1.2})
 ROBUST = ["Weibull", "LogNormal", "Normal", "ExpWeibull"]  # carriers with cheap, well-posed fits
 
 
@@ -49,7 +51,7 @@ def _family_class(name):
     import virocon
     import virocon.distributions as vd
 
-    if name == "ScipyGamma":
+    if name in ("ScipyGamma", "ScipyGammaAllFixed"):
         cls = getattr(_family_class, "_sg", None)
         if cls is None:
 
@@ -123,6 +125,8 @@ FULL_PIPES = [
     (3, [None, 0, 1], ["ExpWeibull", "LogNormal", "Weibull"]),
     (3, [None, None, 1], ["Weibull", "Normal", "LogNormal"]),
     (4, [None, 0, 1, 0], ["Weibull", "LogNormal", "Normal", "LogNormal"]),
+    (2, [None, None], ["Weibull", "ScipyGammaAllFixed"]),
+    (3, [None, 0, None], ["ExpWeibull", "LogNormal", "ScipyGammaAllFixed"]),
 ]
 
 
@@ -156,6 +160,11 @@ FULL_FAULTS = {
     "unknown-fit-method": ("S2", "dim"),
     "unknown-weight-keyword": ("S2", "ewdim"),
     "noniterable-weights": ("S2", "ewdim"),
+    # least squares is also selected by 'lsq' and case-insensitively
+    "unknown-weight-keyword/method-lsq": ("S2", "ewdim"),
+    "unknown-weight-keyword/method-WLSQ": ("S2", "ewdim"),
+    "noniterable-weights/method-Lsq": ("S2", "ewdim"),
+    "unknown-fit-method/empty-string": ("S2", "dim"),
     "hdc-limits-wrong-length": ("S4", "global"),
     "hdc-limit-tuple-wrong-length": ("S4", "dim"),
     "hdc-limit-scalar-entry": ("S4", "dim"),
@@ -350,7 +359,7 @@ def run_sequence(pipe, faults):
     for i, d in enumerate(pipe["dims"]):
         cls = _family_class(d["family"])
         if d["cond_on"] is None:
-            dist = cls(**d["truth"])
+            dist = cls(**({"f_" + k: v for k, v in d["truth"].items()} if d["family"] == "ScipyGammaAllFixed" else d["truth"]))
             descs.append({"distribution": dist, "intervals": _make_slicer(d["slicer"])})
         else:
             dist = cls(**{"f_" + p: v for p, v in d["fixed"].items()})
@@ -432,6 +441,8 @@ def _data_for(pipe):
             x = sts.norm.ppf(u, loc=val["mu"], scale=val["sigma"])
         elif fam == "ExpWeibull":
             x = sts.exponweib.ppf(u, val["delta"], val["beta"], scale=val["alpha"])
+        elif fam == "ScipyGammaAllFixed":
+            x = sts.gamma.ppf(u, val["a"], loc=val["loc"], scale=val["scale"])
         else:
             raise ValueError(fam)
         cols.append(np.asarray(x, dtype=float))
@@ -490,7 +501,9 @@ def run_pipeline(pipe, faults, run=None):
                     t = d["truth"][p]
                     deps[p] = {"shape": "poly1", "truth": [t, 0.04]}
             kwargs = {}
-            if cond_on is None:
+            if cond_on is None and d["family"] == "ScipyGammaAllFixed":
+                kwargs = {"f_" + k: v for k, v in d["truth"].items()}
+            elif cond_on is None:
                 if d["family"] == "ScipyGamma":
                     kwargs = {k: v for k, v in d["truth"].items()}
                 else:
@@ -558,6 +571,14 @@ def run_pipeline(pipe, faults, run=None):
             fit_desc[i] = {"method": "wlsq", "weights": "quartic"}
         for i in anyf("noniterable-weights"):
             fit_desc[i] = {"method": "wlsq", "weights": 3.5}
+        for i in anyf("unknown-weight-keyword/method-lsq"):
+            fit_desc[i] = {"method": "lsq", "weights": "quartic"}
+        for i in anyf("unknown-weight-keyword/method-WLSQ"):
+            fit_desc[i] = {"method": "WLSQ", "weights": "quartic"}
+        for i in anyf("noniterable-weights/method-Lsq"):
+            fit_desc[i] = {"method": "Lsq", "weights": 3.5}
+        for i in anyf("unknown-fit-method/empty-string"):
+            fit_desc[i] = {"method": ""}
         model.fit(data, fit_desc)
         stage = 2
         # ---------------- S3: evaluation ----------------------------------------------------------------
